@@ -675,7 +675,50 @@ def s7(ctx, rep):
                 f"`{U(st)[:80]}` stores a perturbed value that is neither sampled from the domain nor clipped to its bounds and cast")
 
 
+def s4c_dehb_retry(ctx, rep, clause="S4"):
+    """DEHB's own sampler retries while the drawn configuration is a duplicate; a draw that turned out to be a duplicate is forgotten
+    before the next attempt, so that running out of attempts means 'no suggestion' and not 'the last duplicate'"""
+    f = ctx.P.method("DifferentialEvolutionHyperbandScheduler", "_suggest")
+    cfg = cfg_of(f)
+    tests = [n for n in cfg.nodes if n.kind == "test" and any(isinstance(x, ast.Call) and fn_name(x) == "contains" and "_excl_list" in U(x.func.value)
+                                                               for x in cfg.node_walk(n.id))]
+    loops = [l for l in cfg.nodes if l.kind == "for" and any(t_.stmt is not None and any(t_.stmt is s_ for s_ in stmts_in(l.ast.body)) for t_ in tests)]
+    if len(tests) != 1 or len(loops) != 1:
+        raise AnchorError("DEHB._suggest: retry loop with the duplicate test not found")
+    tn, lp = tests[0], loops[0]
+    # the variable that carries the draw out of the loop: tested for None after it
+    after = [a[1] for n in cfg.nodes if n.kind == "test" and n.lineno > lp.lineno for a in atoms_of(n.ast, True)
+             if a[0] == "is" and a[2] == "None" and a[1].isidentifier()]
+    # ... and it is what the duplicate test looks at (decoded)
+    from ..engine import deref as _dr
+    tested = set()
+    for x in cfg.node_walk(tn.id):
+        if isinstance(x, ast.Call) and fn_name(x) == "contains":
+            for a_ in x.args:
+                for y in ast.walk(_dr(f, a_)):
+                    if isinstance(y, ast.Name):
+                        tested.add(y.id)
+                        tested |= {z.id for z in ast.walk(_dr(f, y)) if isinstance(z, ast.Name)}
+    carried = [v for v in after if v in tested and any(isinstance(x, ast.Name) and x.id == v for s_ in lp.ast.body for x in ast.walk(s_))]
+    if not carried:
+        raise AnchorError("DEHB._suggest: the variable carrying the drawn configuration out of the retry loop is not identified")
+    var = carried[0]
+    resets = {n.id for n in cfg.nodes if n.kind == "stmt" and isinstance(n.ast, ast.Assign) and U(n.ast.targets[0]) == var
+              and isinstance(n.ast.value, ast.Constant) and n.ast.value.value is None}
+    dup = []
+    for s_, l_ in cfg.succ[tn.id]:
+        if isinstance(l_, tuple) and l_[0] == "cond":
+            at = atoms_of(l_[1], l_[2])
+            if any(a[0] == "truth" and "contains(" in a[1] and a[2] is True for a in at):
+                dup.append(s_)
+    p_ = cfg.path(dup, lp.id, deleted=resets, skip_labels=("exc",)) if dup else None
+    rep.put(bool(dup) and p_ is None, clause, "must_follow", "DEHB._suggest: a drawn duplicate is forgotten before the next attempt", f, tn.ast, "",
+            f"after the draw turned out to be a duplicate the loop goes on with `{var}` still holding it: when the attempts run out the last duplicate "
+            "is started as a new trial instead of answering 'no suggestion'", witness=cfg.describe_path(p_) if p_ else None)
+
+
 def run(ctx, rep, tier="quick"):
+    s4c_dehb_retry(ctx, rep)
     from . import c16
     # a suggested value lies inside its domain because every decoded value is clipped to the domain's bounds after it has left the
     # internal (log / integer) scale - shared with C07-S2
